@@ -45,11 +45,62 @@ def _nontrivial(fs, ex):
     return False
 
 
+def long_fs(case):
+    """file spec with LONG channels given by a formula (the case itself stays small): case['chans'] = [[type, total, mult,
+    add], ...], split over case['nseg'] segments at case['cuts'] (fractions of the total in 1/8)"""
+    from vf.model import make_path, tsize
+    segs = []
+    nseg = case['nseg']
+    bounds = {}
+    for k, (t, total, mult, add) in enumerate(case['chans']):
+        cuts = sorted(min(total, total * c // 8) for c in case['cuts'][:nseg - 1])
+        bounds[k] = [0] + cuts + [total]
+    for si in range(nseg):
+        entries, active, data = [], [], {}
+        for k, (t, total, mult, add) in enumerate(case['chans']):
+            lo, hi = bounds[k][si], bounds[k][si + 1]
+            n = hi - lo
+            p = make_path('big', 'long%d' % k)
+            vals = ((np.arange(lo, hi, dtype=np.int64) * mult + add) % 251).astype(np.uint8)
+            blob = np.repeat(vals, tsize(t)).tobytes() if t != 'bool' else (vals % 2).astype(np.uint8).tobytes()
+            if t in ('f32', 'f64', 'c64', 'c128'):
+                # keep floats finite: build from small integers
+                base = {'f32': '<f4', 'f64': '<f8', 'c64': '<c8', 'c128': '<c16'}[t]
+                blob = (vals.astype(np.float64) * 0.25).astype(np.dtype(base)).tobytes()
+            entries.append({'path': p, 'hdr': 'full', 'type': t, 'n': n})
+            active.append([p, t, n])
+            data[p] = [blob]
+        p = make_path('big', 'tail')
+        entries.append({'path': p, 'hdr': 'full', 'type': 'i16', 'n': 2})
+        active.append([p, 'i16', 2])
+        data[p] = [bytes([si, 0, 7, 0])]
+        segs.append({'be': False, 'interleaved': False, 'entries': entries, 'active': active, 'nchunks': 1, 'data': data})
+    return {'segments': segs}
+
+
+@st.composite
+def long_sources(draw):
+    from vf.model import tsize
+    chans = []
+    for _k in range(draw(st.integers(1, 2))):
+        t = draw(st.sampled_from(['i8', 'i16', 'i32', 'i64', 'u8', 'u16', 'u32', 'u64', 'f32', 'f64', 'bool', 'ts', 'c64', 'c128']))
+        nbytes = draw(st.sampled_from([16384, 32768, 65536, 131072, 262144])) * draw(st.sampled_from([1, 1, 2, 3]))
+        total = max(nbytes // tsize(t) + draw(st.sampled_from([-1, 0, 0, 0, 1])), 1)
+        if draw(st.integers(0, 3)) == 0:
+            total = draw(st.sampled_from([4096, 8192, 16384, 65536])) + draw(st.sampled_from([-1, 0, 0, 1]))   # counts of values
+        chans.append([t, total, draw(st.integers(1, 250)), draw(st.integers(0, 250))])
+    nseg = draw(st.integers(1, 3))
+    return {'long': True, 'chans': chans, 'nseg': nseg, 'cuts': draw(st.lists(st.integers(0, 8), min_size=2, max_size=2)),
+            'picks': None, 'dst': draw(st.sampled_from(['path', 'stream', 'stream', 'same_path'])),
+            'src': draw(st.sampled_from(['path', 'stream'])), 'index': draw(st.booleans()),
+            'version': draw(st.sampled_from([4712, 4713]))}
+
+
 def check(case, rec):
     from nptdms import TdmsFile, TdmsWriter
     if 'graph' in case:
         return check_scaled(case, rec)
-    fs = case['fs']
+    fs = long_fs(case) if case.get('long') else case['fs']
     if case.get('picks') is not None:
         phys, _plans = P.encode_with_plans(fs, lambda i, alts: P.nth_plan(alts, case['picks'][i]))
     else:
@@ -89,6 +140,24 @@ def check(case, rec):
         if case['dst'] in ('path', 'same_path'):
             out = open(dst, 'rb').read()
             idx = open(dst + '_index', 'rb').read() if case['index'] else None
+            if case['index']:
+                # the copy as a user finds it: read by path, with the index file defragment wrote beside it
+                rec.label('copy_read_with_its_index')
+                for opener in (TdmsFile.read, TdmsFile.open):
+                    ok, tfp = rec.guard('read_copy_by_path', lambda: opener(dst, raw_timestamps=True))
+                    if not ok:
+                        continue
+                    try:
+                        for clause, msg in compare_structure(ex, tfp, raw_ts=True, check_order=False):
+                            if clause != 'datatype':
+                                rec.violation('copy_by_path:' + clause, msg)
+                        ok, res = rec.guard('read_copy_by_path', lambda: compare_data(
+                            ex, tfp, lambda ch: ch.read_data(scaled=False), raw_ts=True, label='copy read by path (%s)' % opener.__name__))
+                        if ok:
+                            for clause, msg in res:
+                                rec.violation('copy_by_path:' + clause, msg)
+                    finally:
+                        tfp.close()
         else:
             out = dst.getvalue()
             idx = istream.getvalue() if istream is not None else None
@@ -202,8 +271,11 @@ def jobs(tier):
         return [Job('fragmented', 'hyp', lambda: _wrap(_fragmented()), n=1200),
                 Job('empty_and_untyped', 'hyp', lambda: _wrap(_empties()), n=600),
                 Job('inheritance_plans', 'hyp', lambda: _wrap(history(max_segments=7, max_channels=4), True), n=600),
-                Job('scaled_sources', 'hyp', _scaled_sources, n=800, check=check_scaled)]
+                Job('scaled_sources', 'hyp', _scaled_sources, n=800, check=check_scaled),
+                Job('long_channels', 'hyp', long_sources, n=200,
+                    note='channels of 16 KiB - 768 KiB (lengths on and next to powers of two), 1-3 source segments')]
     return [Job('fragmented', 'hyp', lambda: _wrap(_fragmented()), n=40000),
             Job('empty_and_untyped', 'hyp', lambda: _wrap(_empties()), n=15000),
             Job('inheritance_plans', 'hyp', lambda: _wrap(history(max_segments=7, max_channels=4), True), n=15000),
-            Job('scaled_sources', 'hyp', _scaled_sources, n=25000, check=check_scaled)]
+            Job('scaled_sources', 'hyp', _scaled_sources, n=25000, check=check_scaled),
+            Job('long_channels', 'hyp', long_sources, n=4000)]
